@@ -61,6 +61,18 @@ TComprRec(D) ==
                                                        <<AFor(TVar("q"), AList(<<AInt(0)>>))>>), AInt(0))))>>),
       SEmit(ACall(AVar("f"), <<AInt(D)>>))>>
 
+(* recursion through the native callbacks map() and partial() *)
+TMapRec(D) ==
+    <<SDef("f", <<P("n")>>,
+           <<SIf(ABin("<=", N_n, AInt(0)), <<SReturn(AInt(0))>>, <<>>),
+             SReturn(ABin("+", AInt(1), AIndex(ACall(AVar("map"), <<AVar("f"), AList(<<ABin("-", N_n, AInt(1))>>)>>), AInt(0))))>>),
+      SEmit(ACall(AVar("f"), <<AInt(D)>>))>>
+TPartialRec(D) ==
+    <<SDef("f", <<P("n")>>,
+           <<SIf(ABin("<=", N_n, AInt(0)), <<SReturn(AInt(0))>>, <<>>),
+             SReturn(ABin("+", AInt(1), ACall(ACall(AVar("partial"), <<AVar("f"), ABin("-", N_n, AInt(1))>>), <<>>)))>>),
+      SEmit(ACall(AVar("f"), <<AInt(D)>>))>>
+
 Prog(c) ==
     IF c.t = "loop" THEN TLoop(c.n)
     ELSE IF c.t = "nested" THEN TNested(c.n, 10)
@@ -69,6 +81,8 @@ Prog(c) ==
     ELSE IF c.t = "mutual" THEN TMutual(c.n)
     ELSE IF c.t = "lambda" THEN TLambda(c.n)
     ELSE IF c.t = "sortedkey" THEN TSortedKey(c.n)
+    ELSE IF c.t = "maprec" THEN TMapRec(c.n)
+    ELSE IF c.t = "partialrec" THEN TPartialRec(c.n)
     ELSE TComprRec(c.n)
 
 RunWith(prog, cap, tkfail, tkkind) ==
@@ -125,7 +139,7 @@ Sizes == IF Tier = "quick" THEN {997, 998} ELSE {995, 996, 997, 998, 999, 1000, 
 Budgets == IF Tier = "quick" THEN {0, 998, 999, 1000, 1001, 1999} ELSE {0, 500, 997, 998, 999, 1000, 1001, 1002, 1998, 1999, 2000, 2001, 2999}
 Cancels == IF Tier = "quick" THEN {0, 1000, 1001} ELSE {0, 1, 999, 1000, 1001, 1999, 2000, 2001}
 Caps == IF Tier = "quick" THEN {3, 5, 50} ELSE {1, 2, 3, 5, 50}
-RecT == {"rec", "mutual", "lambda", "sortedkey", "comprrec"}
+RecT == {"rec", "mutual", "lambda", "sortedkey", "comprrec", "maprec", "partialrec"}
 
 TickCases == {[t |-> t, n |-> n, cap |-> 50, budget |-> b, cancel |-> x] :
                  t \in {"loop", "compr"}, n \in Sizes, b \in Budgets, x \in Cancels}
